@@ -237,6 +237,13 @@ func cmdCheck(args []string) {
 
 	// classify violations against the known-findings file
 	exit := 0
+	replayBudget := 3 // counterexample replays per run (each builds the package's test binary)
+	resByKey := map[string]*FuncResult{}
+	for _, r := range results {
+		if r != nil {
+			resByKey[r.Key] = r
+		}
+	}
 	knownSeen := map[string]bool{}
 	for _, v := range viols {
 		kf := matchKnown(known, *prop, v.Obl.Name)
@@ -257,7 +264,10 @@ func cmdCheck(args []string) {
 		ev.Violations++
 		info := map[string]interface{}{"property": *prop, "obligation": v.Obl.Name, "kind": v.Obl.Kind, "label": v.Obl.Label, "function": shortKey(P, v.Obl.Func),
 			"source": v.Obl.Src, "solver_status": v.Obl.Status, "solver": v.Obl.Solver, "solver_output": trunc2(v.Obl.Model, 20000)}
-		rp, replayed := tryReplay(P, *verifDir, *prop, v.Obl, info)
+		rp, replayed := tryReplay(P, *repo, *verifDir, *prop, resByKey[v.Obl.Func], v.Obl, info, &replayBudget)
+		if replayed {
+			ev.Replayed++
+		}
 		suffix := " no-failing-input-found"
 		if replayed {
 			suffix = ""
@@ -360,6 +370,7 @@ type evidence struct {
 	Discharged       int
 	Violations       int
 	KnownCount       int
+	Replayed         int
 	VacuityChecks    int
 	Known            []string
 	Funcs            []funcEvidence
@@ -436,6 +447,7 @@ func writeEvidence(verifDir, prop, tier string, seed int, ev evidence) {
 		"known_findings":           ev.Known,
 		"known_findings_counted_in_discharged": ev.KnownCount,
 		"vacuity_checks":           ev.VacuityChecks,
+		"counterexamples_replayed_on_real_code": ev.Replayed,
 		"load_and_typecheck_s":     round3(ev.Load),
 		"explanation":              "obligations are generated from the SSA of /repo's working tree on this run; each is one SMT query; see DESIGN.md",
 	}
@@ -468,7 +480,23 @@ func (P *Program) reachableFrom(entry string, exclude []string) []string {
 }
 
 // tryReplay: turn a solver model into a Go test against the real code (see replay.go).
-func tryReplay(P *Program, verifDir, prop string, o *Obligation, info map[string]interface{}) (string, bool) {
+// tryReplay writes the record of a failed obligation; when the solver gave a model and the function
+// is within the replayable subset (replay.go) the model is run against the real code.
+func tryReplay(P *Program, repoDir, verifDir, prop string, r *FuncResult, o *Obligation, info map[string]interface{}, budget *int) (string, bool) {
+	if *budget > 0 && o.Status == "sat" {
+		*budget--
+		test, note, replayed := autoReplay(P, repoDir, verifDir, prop, r, o)
+		info["replay_note"] = note
+		if test != "" {
+			info["replay_test"] = test
+			info["replay_cmd"] = "cd " + P.pkgDir + " && go test -tags verif -overlay " + strings.TrimSuffix(test, "_replay_test.go") + "_overlay.json -vet=off -count=1 -run '^TestGovcReplay$' ."
+		}
+		rec := writeReplay(verifDir, prop, o.Name, info)
+		if replayed {
+			return test, true
+		}
+		return rec, false
+	}
 	return writeReplay(verifDir, prop, o.Name, info), false
 }
 
